@@ -339,6 +339,20 @@ def run_case(case) -> Outcome:
     return out
 
 
+def _type_twin(v):
+    """a value AST that compares == to v but has a different type (or None)"""
+    if v is None:
+        return None
+    k = v["v"]
+    if k == "bool":
+        return {"v": "int", "x": int(v["x"])}
+    if k == "int" and -(2**31) < v["x"] < 2**31:
+        return {"v": "bool", "x": bool(v["x"])} if v["x"] in (0, 1) else {"v": "float", "x": float(v["x"])}
+    if k == "float" and float(v["x"]).is_integer() and abs(v["x"]) < 2**31:
+        return {"v": "int", "x": int(v["x"])}
+    return None
+
+
 def _args_deepcopyable(originals) -> bool:
     for v in originals.values():
         try:
@@ -401,6 +415,13 @@ def strategy(tier):
                 which = draw(st.lists(idx, min_size=1 if n > 1 else 0, max_size=max(1, n - 1) if draw(st.integers(0, 3)) else n, unique=True))
                 repl = {}
                 for i in which:
+                    cur = args.get(attrs[i]["name"]) or attrs[i].get("default")
+                    twin = _type_twin(cur)
+                    if twin is not None and draw(st.integers(0, 2)) == 0:
+                        # equal under == but of another type (1.0 for 1, True for 1): conformance decides - an
+                        # invalid one must be rejected, a valid one must really be applied
+                        repl[str(i)] = twin
+                        continue
                     if draw(st.integers(0, 4)) == 0:
                         r = TT.gen_broken(draw, attrs[i]["term"], ctx, TT.Env(cls=c05._Never, targ=cls["targ"]))
                         v = r[0] if r is not None else good_for(i)
@@ -419,7 +440,58 @@ def strategy(tier):
             a.pop("default_ok", None)
         return {"cls": cls, "args": args, "script": script}
 
-    return cases()
+    T_ = TT.T
+    V_ = TT.V
+    ints = lambda *xs: [V_("int", x=x) for x in xs]  # noqa: E731
+    # containers of containers given through immutable-looking outer carriers (tuples) with mutable inner ones
+    nested_templates = [
+        (T_("seq", of=T_("seq", of=T_("int"))), lambda outer: V_(outer, items=[V_("list", items=ints(1, 2)), V_("list", items=ints(3))])),
+        (T_("seq", of=T_("map", k=T_("str"), v=T_("int"))), lambda outer: V_(outer, items=[V_("dict", items=[[V_("str", x="a"), V_("int", x=1)]])])),
+        (T_("seq", of=T_("set", of=T_("int"))), lambda outer: V_(outer, items=[V_("set", items=ints(1, 2))])),
+        (T_("tuple_var", of=T_("seq", of=T_("str"))), lambda outer: V_("tuple", items=[V_("list", items=[V_("str", x="a")])])),
+        (T_("tuple_fixed", items=[T_("seq", of=T_("int")), T_("str")]), lambda outer: V_("tuple", items=[V_("list", items=ints(5)), V_("str", x="s")])),
+        (T_("optional", of=T_("seq", of=T_("seq", of=T_("int")))), lambda outer: V_(outer, items=[V_("list", items=ints(7, 8))])),
+        (T_("alias_param", body=T_("seq", of=T_("var")), arg=T_("seq", of=T_("int"))), lambda outer: V_(outer, items=[V_("list", items=ints(1))])),
+    ]
+
+    @st.composite
+    def nested_cases(draw):
+        term, mk = draw(st.sampled_from(nested_templates))
+        value = mk(draw(st.sampled_from(["tuple", "tuple", "list"])))
+        attrs = [{"name": "a0", "term": term, "default": None}, {"name": "a1", "term": T_("int"), "default": V_("int", x=0)}]
+        via_update = draw(st.booleans())
+        script = []
+        if via_update:
+            script.append({"o": "updated", "repl": {"0": value}, "unknown": False})
+        script.append({"o": "mutate_arg", "attr": 0, "how": draw(st.sampled_from(["append", "clear", "setitem"])), "nested": True})
+        script.append({"o": draw(st.sampled_from(["copy", "deepcopy", "eq"])), "other": "twin", "attr": 0, "val": None})
+        script.append({"o": "mutate_arg", "attr": 0, "how": "append", "nested": draw(st.booleans())})
+        return {"cls": {"generic": False, "targ": None, "attrs": attrs}, "args": {"a0": value, "a1": None}, "script": script}
+
+    scalar_templates = [
+        (T_("int"), V_("int", x=1)), (T_("int"), V_("int", x=7)), (T_("float"), V_("float", x=2.0)), (T_("bool"), V_("bool", x=True)),
+        (T_("union", alts=[T_("bool"), T_("int")]), V_("int", x=1)), (T_("union", alts=[T_("int"), T_("float")]), V_("int", x=3)),
+        (T_("literal", vals=[1, 2, 3]), V_("int", x=1)), (T_("any"), V_("int", x=0)), (T_("optional", of=T_("float")), V_("float", x=0.0)),
+    ]  # fmt: skip
+
+    @st.composite
+    def twin_cases(draw):
+        """updated() with values that compare == to the current ones but have another type"""
+        picks = draw(st.lists(st.sampled_from(scalar_templates), min_size=1, max_size=3))
+        attrs = [{"name": f"a{i}", "term": t, "default": None} for i, (t, _) in enumerate(picks)]
+        args = {f"a{i}": v for i, (_, v) in enumerate(picks)}
+        script = []
+        for _ in range(draw(st.integers(1, 3))):
+            which = draw(st.lists(st.integers(0, len(picks) - 1), min_size=1, max_size=len(picks), unique=True))
+            repl = {}
+            for i in which:
+                tw = _type_twin(picks[i][1])
+                repl[str(i)] = tw if tw is not None and draw(st.integers(0, 3)) > 0 else picks[i][1]
+            script.append({"o": "updated", "repl": repl, "unknown": draw(st.booleans())})
+            script.append({"o": "eq", "other": draw(st.sampled_from(["twin", "self", "diff1"])), "attr": 0, "val": _type_twin(picks[0][1])})
+        return {"cls": {"generic": False, "targ": None, "attrs": attrs}, "args": args, "script": script}
+
+    return st.one_of(cases(), cases(), cases(), nested_cases(), twin_cases())
 
 
 def budget(tier):
